@@ -10,6 +10,7 @@ import (
 	"github.com/AliceO2Group/Control/common/event"
 	"github.com/AliceO2Group/Control/core/controlcommands"
 	"github.com/AliceO2Group/Control/core/task/sm"
+	mesos "github.com/mesos/mesos-go/api/v1/lib"
 )
 
 type VerifWorld struct {
@@ -55,4 +56,14 @@ func (v *VerifWorld) AgentLost(t *Task) {
 	t.agentId = ""
 	t.state = sm.ERROR
 	t.status = INACTIVE
+}
+
+// SetKillBehaviour makes the fake Mesos master refuse the KILL calls chosen by fails and confirm every other one
+// with a TASK_KILLED status update.
+func (v *VerifWorld) SetKillBehaviour(fails func(taskId string) bool) {
+	v.w.caller.fail = fails
+	v.w.caller.onKill = func(id string) {
+		st := mesos.TASK_KILLED
+		go v.M.updateTaskStatus(&mesos.TaskStatus{TaskID: mesos.TaskID{Value: id}, State: &st})
+	}
 }
